@@ -837,4 +837,4 @@ def replay(path, seed):
         why = oracle_scripts(inp, res) if "enabled" in res else str(res)
         print("oracle:", why or "accepts")
         return 1 if why else 0
-    return 0
+    return 2   # not a kind of record this function knows how to replay (the driver then re-runs the check)
